@@ -596,6 +596,12 @@ pub fn jobs(tier: Tier, full: bool) -> Vec<Job> {
         let depth = tier.pick(2, 3);
         let cfg = TreeCfg { fragment: Some(f.clone()), ..Default::default() };
         v.push(Job { name: format!("J3/{}", cfg.describe()), cfg: cfg.clone(), prefix: vec![], sigma: sigma.clone(), depth });
+        // J3s: the same under a sink that accepts declarative shadow roots (the shadow host of a template that is
+        // the first thing in a fragment is the context element); reference-free properties only
+        if full && f.attrs.is_empty() && ["div", "template", "html", "td", "svg", "select"].contains(&f.local) {
+            let scfg = TreeCfg { fragment: Some(f.clone()), shadow_answer: true, ..Default::default() };
+            v.push(Job { name: format!("J3s/{}", scfg.describe()), cfg: scfg, prefix: vec![], sigma: sigma.clone(), depth: 2 });
+        }
         // J8: every fragment context x every insertion-mode witness as prepared prefix, one more symbol
         // (two in thorough over the structural sub-alphabet)
         for w in mode_witnesses() {
@@ -664,6 +670,7 @@ pub fn main(ctx: &Ctx, prop: Prop) -> ! {
     let mut detach_runs = 0u64;
     if prop == Prop::C18 {
         detach_runs = crate::c18::detach_sweep(ctx, &stats, ctx.tier);
+        detach_runs += crate::c18::xml_sweep(ctx, &stats, ctx.tier);
     }
     if prop == Prop::C04 {
         crate::c04::extra(ctx, &stats);
@@ -776,6 +783,33 @@ pub fn replay(ctx: &Ctx, prop: Prop, v: &serde_json::Value) {
     let w = v["witness"].as_str().unwrap_or("");
     if w.starts_with("direct: ") {
         crate::c20::replay_direct(ctx, w);
+        return;
+    }
+    if w.starts_with("xml ") {
+        // xml5ever jobs (C04 totality, C05 contract, C18 collector): re-run the one schedule
+        use crate::xmlh::*;
+        let (cfg, sched) = crate::c15::parse_witness(w.trim_end_matches(" script-pause"));
+        let r = guarded(|| run_xml_tree(&cfg, &sched, true));
+        match r {
+            Err(p) => {
+                ctx.violation("panic", w, json!({ "panic": p }));
+            },
+            Ok(o) => {
+                println!("{}", o.sink.dom.borrow().render_doc());
+                let c = o.sink.contract.borrow().first().cloned();
+                if let Some(p) = o.problems.first() {
+                    ctx.violation("totality", w, json!({ "message": p }));
+                } else if let Some(c) = c {
+                    ctx.violation(if cfg.gc { "untraced-node-used" } else { "contract" }, w, json!({ "message": c }));
+                } else if cfg.gc {
+                    let b = run_xml_tree(&XmlCfg { gc: false, ..cfg.clone() }, &sched, true);
+                    if crate::c15::tree_sig(&o) != crate::c15::tree_sig(&b) {
+                        ctx.violation("gc-changes-tree", w, json!({}));
+                    }
+                }
+            },
+        }
+        println!("replay: {}", if ctx.violations() == 0 { "passes" } else { "FAILS" });
         return;
     }
     let (mut cfg, sched, mut env) = parse_tree_witness(w);
